@@ -1,23 +1,32 @@
 /-
   C01 — conforming data is accepted by every check mode (no false alarms).
 
-  PARTIAL. Proved here, for every conforming input of any length:
+  Proved here, for every conforming input of any length:
   * `conforming_rdhs_accepted`: in the two target-less modes (`check sanity`, `check all`) a link
     whose headers all satisfy the documented sanity rule list and running rules (second page
     counter 1, i.e. the link starts at an HBF start) produces no message at all — by induction
-    over the link's packets with the C10 invariant of the running checker. Together with C06
-    (`dispatch_partition`) this gives zero findings for any interleaving of any number of links.
+    over the link's packets with the C10 invariant of the running checker.
+  * `conforming_its_accepted` / `conforming_stream_accepted`: in `check sanity its` and
+    `check all its` a link that follows the protocol grammar of `Spec.Protocol` (pages of IHW +
+    trigger segments with data words, CDW at payload start, no-data TDHs, packets continued over
+    pages, stop pages with DDW0; data format 0 or 2 with 0..15 bytes of padding; RDH rule lists
+    with the ITS system id) produces no message — a simulation between the grammar and the
+    validator (`Proofs.ItsConforming`: one lemma per word kind, `segs_sim`, `payload_sim`), the
+    cutter theorem of C12 with its side conditions *proved* from the grammar (`cut_payload`), and the
+    C10 invariant for the headers. With C06 (`dispatch_partition`) and the distinctness of
+    dispatcher ids this is lifted to any number of links interleaved in any order.
   * `conforming_words_never_ambiguous`: a payload word sequence the documented diagram accepts
-    is never classified as one of the ambiguity errors (no [E990]/[E991]/[E992]) — from the C09
-    refinement theorem; and by C11 a word satisfying its type's bit-level rule passes that type's
-    sanity check (no [E30]/[E40]/[E50]/[E60]/[E70]).
-  Not yet a theorem (decided by the conforming-stream oracle on the real binary in all five
-  modes × mute and -E × file/pipe, and by exact model/implementation agreement): the state-dependent
-  ITS rules and the ALPIDE frame rules on conforming streams (the `LinkInv` induction of
-  DESIGN §5.1).
+    is never classified as one of the ambiguity errors (no [E990]/[E991]/[E992]).
+  PARTIAL: `check all its-stave` (the ALPIDE frame rules on grammar streams) is not yet covered
+  by a theorem; it is decided by the conforming-stream oracle on the real binary (all five modes
+  × mute and -E × file/pipe) and by exact model/implementation agreement. The oracle also asks the
+  driver (`conf`) whether every generated link is inside the grammar, so the streams tested are
+  streams the theorem speaks about.
 -/
 import FastPasta.Props.C09
 import FastPasta.Props.C10
+import FastPasta.Proofs.ItsConforming
+import FastPasta.Props.C06
 namespace FastPasta
 namespace C01
 
@@ -99,6 +108,286 @@ theorem conforming_words_never_ambiguous (ws : List (Nat × Bool × Bool)) (hws 
   have : C09.classKind cls ∈ (C09.fsmRun .initialIhw ws).2.map C09.classKind := List.mem_map_of_mem hcls
   rw [h, hnone] at this
   simp at this
+
+/-! ### ITS level: a link that follows the protocol grammar (Spec.Protocol) -/
+open Proto
+
+/-- one packet of a link as the grammar describes it: header bytes, the payload as grammar
+    object, and its byte layout (16-byte slots of data format 0, or 10-byte words followed by
+    `pad` bytes of 0xFF of data format 2) -/
+structure PktSpec where
+  offset : Nat
+  hdr : Bytes
+  pl : Payload
+  fmt0 : Bool
+  pad : Nat
+
+def PktSpec.payloadBytes (x : PktSpec) : Bytes :=
+  if x.fmt0 then C12.encFormat0 x.pl.words else C12.encFormat2 x.pl.words x.pad
+
+def PktSpec.packet (x : PktSpec) : Packet :=
+  { offset := x.offset, rdh := decodeRdh x.hdr, payload := x.payloadBytes }
+
+/-- a link conforms: every header satisfies the documented RDH rule lists (ITS system id
+    required), every payload is accepted by the protocol grammar from where the link stands, the
+    layout agrees with the header's data format and the padding is at most 15 bytes -/
+def ConformingLink (cfg : CheckCfg) (id0 : Nat) : List Rdh → LSt → List PktSpec → Prop
+  | _, _, [] => True
+  | done, st, x :: xs =>
+    x.hdr.length = 64 ∧ (done = [] → (decodeRdh x.hdr).headerId = id0) ∧
+    C10.RdhSaneSpec id0 true (leNat x.hdr) ∧
+    (cfg.running = true → C10.RunningSpec done (decodeRdh x.hdr)) ∧
+    (done.length = 1 → (decodeRdh x.hdr).pagesCounter = 1) ∧
+    x.pad ≤ 15 ∧ (x.fmt0 = true ↔ (decodeRdh x.hdr).dataFormat = 0) ∧
+    ∃ st', payloadOk cfg.running (decodeRdh x.hdr) st x.pl = some st' ∧
+      ConformingLink cfg id0 (done ++ [decodeRdh x.hdr]) st' xs
+
+theorem enc_nonempty (x : PktSpec) (w : Bytes) (ws : List Bytes) (hw : x.pl.words = w :: ws) (hlen : w.length = 10) :
+    x.payloadBytes.isEmpty = false := by
+  unfold PktSpec.payloadBytes
+  obtain ⟨b0,b1,b2,b3,b4,b5,b6,b7,b8,b9, rfl⟩ := list10 w hlen
+  cases x.fmt0 <;> simp [hw, C12.encFormat0, C12.encFormat2]
+
+/-- the validator state after `set_current_rdh` in the non-stave modes -/
+def startCdp (c : CdpSt) (off : Nat) (r : Rdh) : CdpSt :=
+  { c with payloadPos := off + 64, wordCount := 0, slot := (if r.dataFormat == 0 then 16 else 10), startOfData := true, rdh := r }
+
+theorem conforming_its_step (cfg : CheckCfg) (hits : cfg.itsChecks = true) (hst : cfg.stave = false)
+    (htp : cfg.triggerPeriod = none) (id0 : Nat) (done : List Rdh) (s : LinkSt) (st st' : LSt)
+    (hinv : LInv cfg id0 done s) (hrel : EndRel cfg.running st.bw st.cdw s.cdp)
+    (x : PktSpec) (hlen : x.hdr.length = 64)
+    (hid : done = [] → (decodeRdh x.hdr).headerId = id0)
+    (hsane : C10.RdhSaneSpec id0 true (leNat x.hdr))
+    (hrun : cfg.running = true → C10.RunningSpec done (decodeRdh x.hdr))
+    (hsec : done.length = 1 → (decodeRdh x.hdr).pagesCounter = 1)
+    (hpad : x.pad ≤ 15)
+    (hpl : payloadOk cfg.running (decodeRdh x.hdr) st x.pl = some st') :
+    ∃ s', linkStep cfg s x.packet = .ok (s', []) ∧ LInv cfg id0 (done ++ [decodeRdh x.hdr]) s' ∧
+      EndRel cfg.running st'.bw st'.cdw s'.cdp := by
+  have hexp : s.expectId.getD (decodeRdh x.hdr).headerId = id0 := by
+    by_cases hd : done = []
+    · simp [hinv.eid, hd, hid hd]
+    · simp [hinv.eid, hd]
+  have hgood : rdhSanityBad id0 (some 32) (decodeRdh x.hdr) = false :=
+    (C10.sanity_iff x.hdr hlen id0 true).mpr hsane
+  -- the payload
+  have hw := payload_words cfg.running _ st st' x.pl hpl
+  have hne : ∃ w ws, x.pl.words = w :: ws := by
+    cases hpw : x.pl.words with
+    | nil => cases hx : x.pl <;> simp [hx, Payload.words, Page.words] at hpw
+    | cons w ws => exact ⟨w, ws, rfl⟩
+  obtain ⟨w, ws, hwds⟩ := hne
+  have hnonempty := enc_nonempty x w ws hwds (hw w (by simp [hwds])).1
+  have hcut := cut_payload cfg.running _ st st' x.pl hpl x.fmt0 x.pad hpad
+  have hs0 : setCurrentRdh cfg s.cdp x.offset (decodeRdh x.hdr) = .ok (startCdp s.cdp x.offset (decodeRdh x.hdr)) := by
+    unfold setCurrentRdh startCdp; simp [hst]
+  obtain ⟨cdp', hq, hend⟩ := payload_sim cfg hst htp (decodeRdh x.hdr) st st' x.pl (startCdp s.cdp x.offset (decodeRdh x.hdr))
+    ⟨hrel.fsm, hrel.cdw⟩ rfl rfl hpl
+  have hpc : payloadChecks cfg s.cdp x.offset (decodeRdh x.hdr) x.payloadBytes = .ok (cdp', []) := by
+    unfold payloadChecks
+    simp only [hs0]
+    unfold PktSpec.payloadBytes
+    simp only [hcut]
+    exact hq
+  unfold linkStep PktSpec.packet
+  simp only [hexp, hits, ↓reduceIte, hgood, Bool.false_eq_true, List.nil_append, hnonempty, Bool.not_false, Bool.and_self, hpc]
+  by_cases hr : cfg.running = true
+  · obtain ⟨hinv', hflag⟩ := C10.step_inv done s.run (decodeRdh x.hdr) (hinv.run hr) hsec
+    have hnoflag : (runningStep s.run (decodeRdh x.hdr)).2 = false := by
+      cases hc : (runningStep s.run (decodeRdh x.hdr)).2 with
+      | false => rfl
+      | true => exact absurd (hrun hr) (hflag.mp hc)
+    simp only [hr, ↓reduceIte, hnoflag, Bool.false_eq_true, List.nil_append]
+    exact ⟨_, rfl, ⟨by simp, fun _ => hinv'⟩, by rw [hr] at hend; exact hend⟩
+  · have hr' : cfg.running = false := by simpa using hr
+    simp only [hr', Bool.false_eq_true, ↓reduceIte, List.nil_append]
+    exact ⟨_, rfl, ⟨by simp, fun h => absurd h hr⟩, by rw [hr'] at hend; exact hend⟩
+
+/-- `ConformingLink` with the place where the link stands afterwards made explicit
+    (headers seen, grammar state) — used to state what happens to the *next* packet (C02) -/
+def ConformingLinkTo (cfg : CheckCfg) (id0 : Nat) : List Rdh → LSt → List PktSpec → List Rdh → LSt → Prop
+  | done, st, [], done', st' => done' = done ∧ st' = st
+  | done, st, x :: xs, done', st' =>
+    x.hdr.length = 64 ∧ (done = [] → (decodeRdh x.hdr).headerId = id0) ∧
+    C10.RdhSaneSpec id0 true (leNat x.hdr) ∧
+    (cfg.running = true → C10.RunningSpec done (decodeRdh x.hdr)) ∧
+    (done.length = 1 → (decodeRdh x.hdr).pagesCounter = 1) ∧
+    x.pad ≤ 15 ∧ (x.fmt0 = true ↔ (decodeRdh x.hdr).dataFormat = 0) ∧
+    ∃ st1, payloadOk cfg.running (decodeRdh x.hdr) st x.pl = some st1 ∧
+      ConformingLinkTo cfg id0 (done ++ [decodeRdh x.hdr]) st1 xs done' st'
+
+theorem conformingLink_to (cfg : CheckCfg) (id0 : Nat) (xs : List PktSpec) : ∀ done st,
+    ConformingLink cfg id0 done st xs → ∃ done' st', ConformingLinkTo cfg id0 done st xs done' st' := by
+  induction xs with
+  | nil => intro done st _; exact ⟨done, st, rfl, rfl⟩
+  | cons x xs ih =>
+    intro done st hc
+    obtain ⟨h1, h2, h3, h4, h5, h6, h7, st1, h8, h9⟩ := hc
+    obtain ⟨done', st', h⟩ := ih _ _ h9
+    exact ⟨done', st', h1, h2, h3, h4, h5, h6, h7, st1, h8, h⟩
+
+/-- after a conforming link prefix the validator has reported nothing and stands exactly where the
+    grammar stands -/
+theorem conforming_its_run_to (cfg : CheckCfg) (hits : cfg.itsChecks = true) (hst : cfg.stave = false)
+    (htp : cfg.triggerPeriod = none) (id0 : Nat) (xs : List PktSpec) :
+    ∀ (done : List Rdh) (s : LinkSt) (st : LSt) (done' : List Rdh) (st' : LSt),
+      LInv cfg id0 done s → EndRel cfg.running st.bw st.cdw s.cdp →
+      ConformingLinkTo cfg id0 done st xs done' st' →
+      ∃ s', linkRun cfg s (xs.map PktSpec.packet) = .ok (s', []) ∧ LInv cfg id0 done' s' ∧
+        EndRel cfg.running st'.bw st'.cdw s'.cdp := by
+  induction xs with
+  | nil =>
+    intro done s st done' st' hinv hrel hc
+    obtain ⟨rfl, rfl⟩ := hc
+    exact ⟨s, rfl, hinv, hrel⟩
+  | cons x xs ih =>
+    intro done s st done' st' hinv hrel hc
+    obtain ⟨h1, h2, h3, h4, h5, h6, _, st1, h8, h9⟩ := hc
+    obtain ⟨s1, hstep, hinv1, hrel1⟩ := conforming_its_step cfg hits hst htp id0 done s st st1 hinv hrel x h1 h2 h3 h4 h5 h6 h8
+    obtain ⟨s2, hrest, hinv2, hrel2⟩ := ih _ s1 st1 done' st' hinv1 hrel1 h9
+    exact ⟨s2, by simp [linkRun, hstep, hrest], hinv2, hrel2⟩
+
+theorem conforming_its_run (cfg : CheckCfg) (hits : cfg.itsChecks = true) (hst : cfg.stave = false)
+    (htp : cfg.triggerPeriod = none) (id0 : Nat) (xs : List PktSpec)
+    (done : List Rdh) (s : LinkSt) (st : LSt) (hinv : LInv cfg id0 done s) (hrel : EndRel cfg.running st.bw st.cdw s.cdp)
+    (hc : ConformingLink cfg id0 done st xs) :
+    ∃ s', linkRun cfg s (xs.map PktSpec.packet) = .ok (s', []) := by
+  obtain ⟨done', st', hto⟩ := conformingLink_to cfg id0 xs done st hc
+  obtain ⟨s', h, _, _⟩ := conforming_its_run_to cfg hits hst htp id0 xs done s st done' st' hinv hrel hto
+  exact ⟨s', h⟩
+
+/-- **C01 (ITS level, `check sanity its` and `check all its`)**: a link whose headers satisfy the
+    documented RDH rules and whose payloads follow the protocol grammar — pages of IHW and trigger
+    segments with data words, CDWs, no-data TDHs, packets continued over pages, stop pages with
+    DDW0, in data format 0 or 2 with 0..15 bytes of padding — produces no message at all,
+    however many packets it has. With C06 (`dispatch_partition`) this holds for any number of
+    links interleaved in any order. -/
+theorem conforming_its_accepted (cfg : CheckCfg) (hits : cfg.itsChecks = true) (hst : cfg.stave = false)
+    (htp : cfg.triggerPeriod = none) (hver : cfg.customRdhVersion = none)
+    (id0 : Nat) (xs : List PktSpec) (hc : ConformingLink cfg id0 [] {} xs) :
+    ∃ s', linkRun cfg (LinkSt.init cfg) (xs.map PktSpec.packet) = .ok (s', []) :=
+  conforming_its_run cfg hits hst htp id0 xs [] (LinkSt.init cfg) {}
+    ⟨by simp [LinkSt.init, hver], fun _ => C10.init_inv⟩
+    ⟨Or.inl rfl, fun _ => rfl⟩ hc
+
+/-! ### any number of links, interleaved in any order -/
+
+theorem upd_ids (cfg : CheckCfg) (p : Packet) (id : Nat) : ∀ (d d' : DispSt),
+    dispStep.upd cfg p id d = .ok d' →
+    d'.map (·.1) = d.map (·.1) ∨ (d'.map (·.1) = d.map (·.1) ++ [id] ∧ id ∉ d.map (·.1)) := by
+  intro d
+  induction d with
+  | nil =>
+    intro d' h
+    simp only [dispStep.upd] at h
+    split at h
+    · cases h
+    · simp only [Except.ok.injEq] at h; subst h; right; simp
+  | cons x xs ih =>
+    intro d' h
+    obtain ⟨i, s, ms⟩ := x
+    simp only [dispStep.upd] at h
+    split at h
+    · split at h
+      · cases h
+      · simp only [Except.ok.injEq] at h; subst h; left; rfl
+    · rename_i hne
+      split at h
+      · cases h
+      · rename_i rest' hr
+        simp only [Except.ok.injEq] at h; subst h
+        rcases ih rest' hr with h1 | ⟨h1, h2⟩
+        · left; simp [h1]
+        · right
+          refine ⟨by simp [h1], ?_⟩
+          simp only [List.map_cons, List.mem_cons, not_or]
+          exact ⟨fun e => hne (by simp [e]), h2⟩
+
+theorem run_ids_nodup (cfg : CheckCfg) (ps : List Packet) : ∀ (d d' : DispSt),
+    (d.map (·.1)).Nodup → runValidators cfg d ps = .ok d' → (d'.map (·.1)).Nodup := by
+  induction ps with
+  | nil => intro d d' hn h; simp only [runValidators, Except.ok.injEq] at h; subst h; exact hn
+  | cons p ps ih =>
+    intro d d' hn h
+    simp only [runValidators] at h
+    cases h1 : dispStep cfg d p with
+    | error e => simp [h1] at h
+    | ok d1 =>
+      simp only [h1] at h
+      apply ih d1 d' _ h
+      unfold dispStep at h1
+      rcases upd_ids cfg p _ d d1 h1 with e | ⟨e, hnot⟩
+      · rw [e]; exact hn
+      · rw [e, List.nodup_append]
+        exact ⟨hn, by simp, by intro a ha b hb; simp only [List.mem_singleton] at hb; subst hb; intro e2; subst e2; exact hnot ha⟩
+
+theorem find_of_nodup (d : DispSt) (hn : (d.map (·.1)).Nodup) (x : Nat × LinkSt × List Msg) (hx : x ∈ d) :
+    d.find? (·.1 == x.1) = some x := by
+  induction d with
+  | nil => simp at hx
+  | cons y ys ih =>
+    simp only [List.map_cons, List.nodup_cons] at hn
+    simp only [List.mem_cons] at hx
+    rcases hx with rfl | hx
+    · simp
+    · have hne : ¬ y.1 = x.1 := by
+        intro e
+        exact hn.1 (by rw [e]; exact List.mem_map_of_mem hx)
+      have hb : (y.1 == x.1) = false := by simpa using hne
+      simp only [List.find?_cons, hb]
+      exact ih hn.2 hx
+
+/-- **C01 (ITS level, whole input)**: if the packets of every link, taken in their own order out of
+    an arbitrarily interleaved packet list, form a conforming link, then `check sanity its` /
+    `check all its` produce no message for the whole input — any number of links, any
+    interleaving, any number of packets. -/
+theorem conforming_stream_accepted (cfg : CheckCfg) (hits : cfg.itsChecks = true) (hst : cfg.stave = false)
+    (htp : cfg.triggerPeriod = none) (hver : cfg.customRdhVersion = none) (ps : List Packet)
+    (hconf : ∀ i, ∃ (id0 : Nat) (xs : List PktSpec), C06.ofId cfg i ps = xs.map PktSpec.packet ∧ ConformingLink cfg id0 [] {} xs)
+    (d : DispSt) (h : runValidators cfg [] ps = .ok d) : d.allMsgs = [] := by
+  have hn := run_ids_nodup cfg ps [] d (by simp) h
+  unfold DispSt.allMsgs
+  rw [List.flatMap_eq_nil_iff]
+  intro x hx
+  have hpart := C06.dispatch_partition cfg ps d h x.1
+  obtain ⟨id0, xs, hof, hc⟩ := hconf x.1
+  obtain ⟨s', hrun⟩ := conforming_its_accepted cfg hits hst htp hver id0 xs hc
+  unfold C06.alone at hpart
+  rw [hof, hrun] at hpart
+  simp only [Except.ok.injEq] at hpart
+  unfold DispSt.msgsOf at hpart
+  rw [find_of_nodup d hn x hx] at hpart
+  exact hpart.symm
+
+/-! ### non-vacuity: concrete payloads the grammar accepts (kernel-evaluated) -/
+namespace Ex
+def r0 : Rdh := { (default : Rdh) with orbit := 7, bcReserved := 5, triggerType := 0x10, pagesCounter := 0, stopBit := 0 }
+def r1 : Rdh := { r0 with pagesCounter := 1 }
+def rStop : Rdh := { r0 with pagesCounter := 2, stopBit := 1 }
+def ihw : Bytes := [0xFF, 0x3F, 0, 0, 0, 0, 0, 0, 0, 0xE0]
+def tdh : Bytes := [0x10, 0x00, 0x05, 0x00, 7, 0, 0, 0, 0, 0xE8]          -- PhT, BC 5, orbit 7
+def tdhNoData : Bytes := [0x10, 0x20, 0x09, 0x00, 7, 0, 0, 0, 0, 0xE8]    -- no_data, BC 9
+def tdhOpen : Bytes := [0x10, 0x00, 0x0B, 0x00, 7, 0, 0, 0, 0, 0xE8]      -- BC 11
+def tdhCont : Bytes := [0x10, 0x40, 0x0B, 0x00, 7, 0, 0, 0, 0, 0xE8]      -- continuation of tdhOpen
+def data : Bytes := [1, 2, 3, 4, 5, 6, 7, 8, 9, 0x22]
+def cdw : Bytes := [1, 2, 3, 4, 5, 6, 0, 0, 0, 0xF8]
+def tdtDone : Bytes := [0, 0, 0, 0, 0, 0, 0, 0, 1, 0xF0]
+def tdtOpen : Bytes := [0, 0, 0, 0, 0, 0, 0, 0, 0, 0xF0]
+def ddw0 : Bytes := [0, 0, 0, 0, 0, 0, 0, 0, 0, 0xE4]
+/-- page 0: IHW, a closed packet starting with a CDW, a no-data TDH, and a packet left open -/
+def page0 : Payload := .page { ihw := ihw, segs :=
+  [{ tdh := tdh, body := some ([cdw, data, data], tdtDone) }, { tdh := tdhNoData, body := none },
+   { tdh := tdhOpen, body := some ([data], tdtOpen) }] }
+/-- page 1: IHW, the continuation of the open packet, then a closed one -/
+def page1 : Payload := .page { ihw := ihw, segs :=
+  [{ tdh := tdhCont, body := some ([data, data], tdtDone) }, { tdh := tdhOpen, body := some ([], tdtDone) }] }
+
+example : payloadOk true r0 {} page0 = some { bw := .open_ tdhOpen, cdw := some cdw } := by decide
+example : payloadOk true r1 { bw := .open_ tdhOpen, cdw := some cdw } page1 = some { bw := .closed, cdw := some cdw } := by decide
+example : payloadOk true rStop { bw := .closed, cdw := some cdw } (.stop ddw0) = some { bw := .fresh, cdw := some cdw } := by decide
+-- and the grammar rejects a page that starts a new packet while one is open
+example : payloadOk true r1 { bw := .open_ tdhOpen, cdw := none } page0 = none := by decide
+end Ex
 
 end C01
 end FastPasta
